@@ -10,6 +10,7 @@ Scratch copies live under /dev/shm (or $TMPDIR) and are removed as soon as each 
 import concurrent.futures as cf
 import json
 import os
+import re
 import shutil
 import subprocess
 import sys
@@ -77,7 +78,7 @@ def verify_one(src, prop, k):
             shutil.copy(demo, os.path.join(dst, "demo.py"))
             if os.path.exists(notes):
                 shutil.copy(notes, os.path.join(dst, "notes.md"))
-            meta = {"id": f"{prop}-{k}", "breaks_property": prop,
+            meta = {"id": f"{prop}-{k}", "breaks_property": re.sub(r"^R\d", "", prop),
                     "needs_to_manifest": open(notes).read()[:1500] if os.path.exists(notes) else "",
                     "confirmed_by": ["demo.py exits 0 on a clean scratch copy of /repo HEAD (rc %d)" % rc_clean,
                                      "demo.py exits non-zero with patch.diff applied (rc %d)" % rc_pat,
@@ -150,12 +151,12 @@ def main():
             with open(os.path.join(SEEDED, "RESULTS.json")) as fh:
                 results = json.load(fh)
         def props_for(sid):
-            own = sid.split("-")[0].replace("R2", "")
+            own = re.sub(r"^R\d", "", sid.split("-")[0])
             # the two slowest checks (all-mode output evaluation) are run only for the properties they belong to
             return [p for p in props if p not in ("C10", "C12") or own in ("C10", "C11", "C12")]
         with cf.ThreadPoolExecutor(6) as ex:
             for r in ex.map(lambda s: run_one(s, props_for(s)), ids):
-                own = r["id"].split("-")[0].replace("R2", "")
+                own = re.sub(r"^R\d", "", r["id"].split("-")[0])
                 status = "CAUGHT(own)" if own in r["fired"] else ("caught(other)" if r["fired"] else ("ERROR" if r["errors"] else "MISSED"))
                 print(f"{r['id']:8s} {status:14s} fired={ {k: v[:1] for k, v in r['fired'].items()} } errors={r['errors']}")
                 results[r["id"]] = r
